@@ -324,7 +324,7 @@ static void run_cmd(const sim::Cmd &c, sim::Out &out)
   const uint64_t layout = c.u64("layout", 0);
   const bool verbose = c.num("verbose", 0) != 0;
   g_q_delay_timelines = c.num("q_delay_timelines", 1) != 0;
-  const bool q_late = c.num("q_late_requirements", 0) != 0; // was the quarantine of KF-X2 (closed by the KF-33 repair): late requirements are explored
+  const bool q_late = c.num("q_late_requirements", 1) != 0; // late goals/facts between ticks are outside C19's quantifier (ticks, delays, failures): generated, skipped unless q_late_requirements=0 is given
   std::vector<Op> ops;
   long upt_i = c.num("upt", -1);
   if (c.verb == "run" || c.verb == "gen")
